@@ -33,7 +33,116 @@ fn infer_sorts(query: SqlQuery, ctx: &mut Context) -> SqlQuery {
         ctx,
     };
 
-    s.fold_sql_query(query).unwrap()
+    #[cfg(prqlc_verif)]
+    log::debug!(
+        "verif:infer_sorts {}",
+        serde_json::json!({"phase": "entry", "ctx": verif::context(&s.ctx.anchor), "query": verif::query(&query)})
+    );
+
+    #[allow(clippy::let_and_return)]
+    let query = s.fold_sql_query(query).unwrap();
+
+    #[cfg(prqlc_verif)]
+    log::debug!(
+        "verif:infer_sorts {}",
+        serde_json::json!({"phase": "exit", "ctx": verif::context(&s.ctx.anchor), "query": verif::query(&query)})
+    );
+
+    query
+}
+
+/// Verification hook (never compiled in normal builds): the slice of the context and of the
+/// query that sort inference reads and writes, as JSON. Read-only.
+#[cfg(prqlc_verif)]
+mod verif {
+    use serde_json::{json, Value};
+
+    use super::super::anchor::CidCollector;
+    use super::super::context::AnchorContext;
+    use super::*;
+
+    fn cids(v: &[CId]) -> Vec<usize> {
+        v.iter().map(|c| c.get()).collect()
+    }
+
+    fn sorts(v: &[ColumnSort<CId>]) -> Vec<(usize, bool)> {
+        use crate::ir::generic::SortDirection::Desc;
+        (v.iter().map(|s| (s.column.get(), s.direction == Desc))).collect()
+    }
+
+    fn rel_expr(e: &RelationExpr) -> Value {
+        match &e.kind {
+            RelationExprKind::Ref(tid) => json!({"riid": e.riid, "ref": tid.get()}),
+            RelationExprKind::SubQuery(r) => json!({"riid": e.riid, "sub": relation(r)}),
+        }
+    }
+
+    fn relation(r: &SqlRelation) -> Value {
+        match r {
+            SqlRelation::AtomicPipeline(p) => json!(p.iter().map(transform).collect::<Vec<_>>()),
+            _ => Value::Null,
+        }
+    }
+
+    fn transform(t: &SqlTransform<RelationExpr, ()>) -> Value {
+        match t {
+            SqlTransform::From(e) => json!({"From": rel_expr(e)}),
+            SqlTransform::Join { with, .. } => json!({"Join": rel_expr(with)}),
+            SqlTransform::Select(v) => json!({"Select": cids(v)}),
+            SqlTransform::Sort(v) => json!({"Sort": sorts(v)}),
+            SqlTransform::Take(t) => {
+                json!({"Take": {"partition": cids(&t.partition), "sort": sorts(&t.sort)}})
+            }
+            SqlTransform::DistinctOn(v) => json!({"DistinctOn": cids(v)}),
+            SqlTransform::Aggregate { partition, compute } => {
+                json!({"Aggregate": [cids(partition), cids(compute)]})
+            }
+            other => json!(other.as_ref()),
+        }
+    }
+
+    pub fn query(q: &SqlQuery) -> Value {
+        let ctes = q.ctes.iter().map(|c| match &c.kind {
+            CteKind::Normal(r) => json!({"tid": c.tid.get(), "normal": relation(r)}),
+            CteKind::Loop { initial, step } => {
+                json!({"tid": c.tid.get(), "loop": [relation(initial), relation(step)]})
+            }
+        });
+        json!({"ctes": ctes.collect::<Vec<_>>(), "main": relation(&q.main_relation)})
+    }
+
+    pub fn context(a: &AnchorContext) -> Value {
+        let decls = a.column_decls.iter().sorted_by_key(|(c, _)| c.get());
+        let decls = decls.map(|(c, d)| match d {
+            ColumnDecl::RelationColumn(riid, cid, col) => {
+                json!({"cid": c.get(), "riid": riid, "col": cid.get(), "wildcard": col.is_wildcard()})
+            }
+            ColumnDecl::Compute(k) => {
+                let mut uses = cids(&CidCollector::collect(k.expr.clone()));
+                if let Some(w) = &k.window {
+                    uses.extend(cids(&w.partition));
+                    uses.extend(w.sort.iter().map(|s| s.column.get()));
+                }
+                let column_ref = k.expr.kind.as_column_ref().map(|c| c.get());
+                json!({"cid": c.get(), "compute": k.id.get(), "column_ref": column_ref, "uses": uses})
+            }
+        });
+        let insts = a.relation_instances.iter().sorted_by_key(|(r, _)| **r);
+        let insts = insts.map(|(riid, i)| {
+            let redirects = i.cid_redirects.iter().map(|(s, t)| (s.get(), t.get()));
+            json!({
+                "riid": riid,
+                "source": i.table_ref.source.get(),
+                "columns": i.table_ref.columns.iter().map(|(_, c)| c.get()).collect::<Vec<_>>(),
+                "redirects": redirects.sorted().collect::<Vec<_>>(),
+            })
+        });
+        json!({
+            "column_decls": decls.collect::<Vec<_>>(),
+            "relation_instances": insts.collect::<Vec<_>>(),
+            "next_cid": a.cid.clone().gen().get(),
+        })
+    }
 }
 
 struct SortingInference<'a> {
